@@ -19,6 +19,9 @@ CONSTANTS Queries,          \* sequence of [kind, ver]
           MaxNotify,
           HeaderSurvives
 NoneV == 9
+\* the version octet of a Serial Notify written before any version is negotiated (Connection::version(): unwrap_or(0));
+\* the statement only asks that it does not depend on how the bytes arrive - a constant does that
+PreVer == 0
 QLen(q) == IF Queries[q].kind \in {"serial_ok", "serial_unknown"} THEN 12 ELSE 8
 RECURSIVE BytesFrom(_)
 BytesFrom(q) == IF q > Len(Queries) THEN <<>> ELSE [i \in 1..QLen(q) |-> <<q, i>>] \o BytesFrom(q + 1)
@@ -71,7 +74,7 @@ Notify == /\ notifies < MaxNotify
           /\ UNCHANGED <<wire, sock, hdr, need, cur, due, connVer, closed, eof, out, lost>>
 SelectNotify == /\ ~closed /\ need = 0 /\ ~due /\ notifyP = 1
                 /\ notifyP' = 0
-                /\ out' = Append(out, <<"notify">>)
+                /\ out' = Append(out, <<"notify", IF connVer = NoneV THEN PreVer ELSE connVer>>)
                 /\ IF HeaderSurvives THEN hdr' = hdr /\ lost' = lost
                    ELSE hdr' = <<>> /\ lost' = lost + Len(hdr)
                 /\ UNCHANGED <<wire, sock, need, cur, due, notifies, connVer, closed, eof, script>>
@@ -125,6 +128,15 @@ NoGarbage == \A i \in 1..Len(out) : out[i][1] # "garbage"
 Quiescent == wire > Len(Stream) /\ sock = <<>> /\ need = 0 /\ ~due /\ notifyP = 0
 Complete == (Quiescent /\ ~closed /\ hdr = <<>>) => NonNotify(out) = Answers(1, Len(Queries), NoneV)
 NotifyCount == Len(SelectSeq(out, LAMBDA e : e[1] = "notify")) <= notifies
+\* one connection, one version: from the first entry that settles the version on, everything written - responses, errors and
+\* Serial Notify PDUs alike - carries that version; before that a Serial Notify carries PreVer whatever has arrived so far
+Settles(e) == e[1] \in {"full", "diff", "creset"} \/ (e[1] = "err" /\ e[3] \in {3, 8})
+VerOf(e) == e[Len(e)]
+OneVersion == \A i \in 1..Len(out) :
+                 IF \E k \in 1..i : Settles(out[k])
+                 THEN LET k0 == CHOOSE k \in 1..i : Settles(out[k]) /\ \A m \in 1..(k - 1) : ~Settles(out[m])
+                      IN VerOf(out[i]) = VerOf(out[k0])
+                 ELSE out[i][1] = "notify" => out[i][2] = PreVer
 \* every query that fully arrives is eventually answered
 AllAnswered == <>(closed \/ eof \/ (wire > Len(Stream) => NonNotify(out) = Answers(1, Len(Queries), NoneV)))
 =============================================================================
